@@ -217,6 +217,12 @@ class SpecTheory(object):
                 continue
             argsorts = [self._sort(t) for t in f._spec_argtypes]
             retsort = self._sort(f._spec_ret)
+            if getattr(f, '_spec_abstract', False):
+                d = z3.Function(name, *(argsorts + [retsort]))      # declared only: no definition is ever given to the solver
+                self.decls[name] = d
+                self.funcs[name] = d
+                self.abstract = getattr(self, 'abstract', set()) | {name}
+                continue
             tree = ast.parse(textwrap.dedent(inspect.getsource(f)))
             fdef = [n for n in tree.body if isinstance(n, ast.FunctionDef)][0]
             rets = [n for n in fdef.body if isinstance(n, ast.Return)]
@@ -360,6 +366,8 @@ class SpecTheory(object):
                     out.append(ax)
                     nxt.append((ax, d))          # macro expansions are free: scanned again at the same depth
                     continue
+                if name not in self.defs:
+                    continue                     # abstract spec function: declared only
                 consts, body = self.defs[name]
                 if not has_var(e, 0, hv):
                     inst = z3.substitute(body, *[(c, a) for c, a in zip(consts, args)])
